@@ -759,6 +759,12 @@ func (e *Exec) sxCall(env *SpecEnv, n *ast.CallExpr) SVal {
 			return SVal{T: t, Typ: boolT}
 		}
 		return SVal{T: t, Typ: intT}
+	case "lower":
+		e.sc.declFun("str_lower", []string{"Str"}, "Str")
+		return SVal{T: app("str_lower", e.mat(env, e.sx(env, n.Args[0]))), Typ: types.Typ[types.String]}
+	case "joinHostPort":
+		e.sc.declFun("join_host_port", []string{"Str", "Str"}, "Str")
+		return SVal{T: app("join_host_port", e.mat(env, e.sx(env, n.Args[0])), e.mat(env, e.sx(env, n.Args[1]))), Typ: types.Typ[types.String]}
 	case "strOfBytes":
 		v := e.sx(env, n.Args[0])
 		return SVal{T: e.strOfBytes(env.heap(), v.T), Typ: types.Typ[types.String]}
